@@ -555,6 +555,7 @@ def check_c06(ctx, cov):
     res = validate_lines([[l] for l in lines], ['C06'], ctx.work, 'vw')
     ctx.collect(res, recs, jmap, defs)
     cov['writes_validated'] = res['checked']
+    selftest(ctx, cov, lines)
     log('C06 writes: %d validated, %d bad' % (res['checked'], len(res['bads'])))
     # (c) round trips in all configurations
     tj, j = [], 100000
@@ -562,7 +563,8 @@ def check_c06(ctx, cov):
         if m.pending:
             continue
         for fmt in ('ovmb', 'ascii'):
-            for (mt, tc, bu) in configs_for(ctx.tier):
+            # the 65536-entity soups (records of ~60 MB) make one round trip per format
+            for (mt, tc, bu) in (configs_for(ctx.tier) if m.nv < 60000 else [('poly', 0, 0)]):
                 tj.append('T %d %s %s %s %d %d' % (j, m.name, fmt, mt, tc, bu)); j += 1
     tmap = {int(x.split()[1]): x for x in tj}
     trecs = run_exec(ctx.variant, defs, tj, ctx.work, 't')
@@ -722,11 +724,12 @@ def check_faults(ctx, cov, prop):
                 rj.append(read_job(j, 'ovmb', 'poly', 0, 0, data[:k])); kinds[j] = 'trunc-shipped'; j += 1
     rmap = {int(x.split()[1]): x for x in rj}
     t0 = time.time()
-    rrecs = run_exec(ctx.variant, '', rj, ctx.work, 'r', timeout_ms=(6000 if ctx.tier == 'quick' else 20000) if ctx.variant == 'san' else 10000)
+    rrecs = run_exec(ctx.variant, '', rj, ctx.work, 'r', timeout_ms=20000 if ctx.variant == 'san' else 10000)
     cov['exec_wall_s'] = round(time.time() - t0, 1)
     log('%s: %d inputs executed in %.0fs' % (prop, len(rrecs), time.time() - t0))
     res = validate_lines([rrecs[jj] for jj in sorted(rrecs)], [prop], ctx.work, 'vr')
     ctx.collect(res, rrecs, rmap, '')
+    selftest(ctx, cov, [rrecs[jj][-1] for jj in sorted(rrecs)])
     kc = {}
     for jj in rrecs:
         kc[kinds[jj]] = kc.get(kinds[jj], 0) + 1
@@ -782,6 +785,42 @@ def ascii_mutants(data, rnd, tier):
             if v != cur:
                 out.append((data[:a] + v + data[b:], 'tokreplace'))
     return out
+
+
+def selftest(ctx, cov, lines):
+    """Binding demonstration: records of this run with one observed field corrupted must be rejected by
+    the validator (guards against a vacuous oracle or a broken JSON bridge).  A failure is a failure of
+    the machinery, not a verdict about the library."""
+    muts = []
+    for ln in lines:
+        if len(ln) > 400_000:
+            continue
+        d = json.loads(ln)
+        if d.get('died') or d.get('fmt') != 'ovmb':
+            continue
+        if ctx.prop == 'C06' and d['e'] == 'write' and d.get('res') == 'Ok' and not d['mesh']['needs_gc']:
+            m = d['mesh']
+            if m['ne'] > 0 and len(muts) < 9:
+                c = json.loads(ln); c['mesh']['edges'][0][0] += 1; muts.append(('edge handle', c))
+            if m['nv'] > 0 and len(muts) < 9:
+                c = json.loads(ln); c['mesh']['pos'][0][0] ^= 1; muts.append(('position bit', c))
+                c = json.loads(ln); c['bytes'][-1] ^= 1; muts.append(('file byte', c))
+            if any(p['t'] == 'int32' and p['vals'] for p in m['props']) and len(muts) < 9:
+                c = json.loads(ln)
+                q = [p for p in c['mesh']['props'] if p['t'] == 'int32' and p['vals']][0]; q['vals'][0][0] ^= 1; muts.append(('property value', c))
+        elif ctx.prop == 'C18' and d['e'] == 'read' and d.get('res') not in ('Ok', 'Crash', 'Timeout') and len(d['bytes']) < 48 and len(muts) < 3:
+            c = json.loads(ln); c['res'] = 'Ok'; c['mesh'] = dict(nv=0, ne=0, nf=0, nc=0, pos=[], edges=[], faces=[], cells=[], props=[]); muts.append(('result of a truncated file', c))
+        elif ctx.prop == 'C07' and d['e'] == 'read' and d.get('res') == 'Ok' and d['mesh']['ne'] > 0 and len(muts) < 3:
+            c = json.loads(ln); c['mesh']['edges'][0][1] = c['mesh']['nv'] + 5; muts.append(('edge handle out of range', c))
+        if len(muts) >= (9 if ctx.prop == 'C06' else 3):
+            break
+    if not muts:
+        raise MachineryError('selftest: no record suitable for corruption')
+    res = validate_lines([[json.dumps(c, separators=(',', ':'))] for _, c in muts], [ctx.prop], ctx.work, 'selftest')
+    flagged = {b['line'] for b in res['bads'] if b['msg'].startswith(ctx.prop + ':')}
+    if len(res['bads']) < len(muts):
+        raise MachineryError('selftest: the validator accepted %d of %d corrupted records' % (len(muts) - len(res['bads']), len(muts)))
+    cov['selftest'] = dict(corrupted_records=len(muts), rejected=len(res['bads']), kinds=sorted({k for k, _ in muts}))
 
 
 LEVEL = {'C06': 'model_checking', 'C07': 'fault_enumeration', 'C18': 'fault_enumeration'}
@@ -855,7 +894,8 @@ def run_check(prop, tier, seed, replay=None):
         print('VIOLATION property=%s replay=%s' % (prop, v['replay']))
         log('   ', v['msg'], (v.get('stderr') or '').replace('\n', ' | ')[-400:])
     cov['violation_messages'] = sorted({v['msg'] for v in ctx.violations})[:40]
-    vlib.write_evidence(prop, tier, seed, LEVEL[prop], cov, time.time() - t0, len({v['msg'] for v in ctx.violations}),
+    if not replay:      # a replay of one input is not a run of the check: the evidence of the last full run stays
+      vlib.write_evidence(prop, tier, seed, LEVEL[prop], cov, time.time() - t0, len({v['msg'] for v in ctx.violations}),
                         ['TLC 2.x and the CommunityModules JSON bridge are trusted',
                          'harness/io_exec.cc is trusted to log the bytes it handed to / received from the library and the projection of the mesh',
                          'absence of undefined behaviour is observed (ASan, UBSan, _GLIBCXX_ASSERTIONS, timeout) on the executed inputs, not derived from the specification',
